@@ -184,6 +184,11 @@ type env struct {
 	fired     int
 	deletes   []DelEvent
 	current   int               // command being reconciled (-1 otherwise)
+	// static-pass mode (c08.staticpass): the commands are computed by the REAL method and started one after the other;
+	// a replacement NodeClaim belongs to the command whose StartCommand call created it
+	static       bool
+	starting     int // command whose StartCommand call is running (-1 otherwise)
+	startCreates int // NodeClaims that call has tried to create so far
 	replNames map[string][2]int // NodeClaim name -> (cmd, idx)
 	lastObjs  *candObjs
 }
@@ -233,6 +238,13 @@ func (e *env) keyFor(verb string, obj client.Object, name string) string {
 			return fmt.Sprintf("%s.node.%d", verb, i)
 		}
 	case *v1.NodePool:
+		if e.static {
+			// the single replacement of a static command is stamped out of the candidate's own (static) NodePool
+			if verb == "get" && strings.HasPrefix(name, "sp-") {
+				return "get.pool.0"
+			}
+			return ""
+		}
 		if i, ok := candIndex(name, "np-"); ok && verb == "get" {
 			return fmt.Sprintf("get.pool.%d", i)
 		}
@@ -243,6 +255,15 @@ func (e *env) keyFor(verb string, obj client.Object, name string) string {
 				return fmt.Sprintf("%s.nc.%d", verb, i)
 			}
 			return ""
+		}
+		if verb == "create" && e.static {
+			e.mu.Lock()
+			defer e.mu.Unlock()
+			if e.starting < 0 {
+				return ""
+			}
+			e.startCreates++
+			return fmt.Sprintf("create.repl.%d.%d", e.starting, e.startCreates-1)
 		}
 		if verb == "create" {
 			if a, ok := obj.GetAnnotations()[replAnno]; ok {
@@ -382,7 +403,7 @@ func newEnv(in *In) (*env, error) {
 			}
 		}
 	}
-	e := &env{in: in, counts: map[string]int{}, replNames: map[string][2]int{}, current: -1}
+	e := &env{in: in, counts: map[string]int{}, replNames: map[string][2]int{}, current: -1, starting: -1}
 	e.ctx = options.ToContext(context.Background(), test.Options())
 	e.clk = clocktesting.NewFakeClock(t0)
 	e.cp = fakecp.NewCloudProvider()
